@@ -44,6 +44,16 @@ def _is_unescaped(c: str) -> bool:
             or 0x5D <= o <= 0xD7FF or 0xE000 <= o <= 0x10FFFF)
 
 
+def _to_int(text: str) -> int:
+    """int(text); digit strings beyond the interpreter's str->int limit are replaced by a power of ten of the same
+    magnitude (exact value irrelevant: such integers are far outside every range this module reasons about)."""
+    digits = len(text.lstrip("-"))
+    if digits > 4000:
+        v = 10 ** (digits - 1)
+        return -v if text.startswith("-") else v
+    return int(text)
+
+
 HEX = "0123456789abcdefABCDEF"
 _ESC = {"b": "\b", "f": "\f", "n": "\n", "r": "\r", "t": "\t", "/": "/", "\\": "\\"}
 
@@ -119,7 +129,7 @@ class P:
             j += 1
             while j < n and "0" <= t[j] <= "9":
                 j += 1
-            return j, int(t[i:j])
+            return j, _to_int(t[i:j])
         self.miss(j, "int")
         return None
 
@@ -159,7 +169,7 @@ class P:
                 self.miss(m, "exp")
         text = t[i:j]
         if is_int:
-            return j, int(text)
+            return j, _to_int(text)
         try:
             return j, float(text)
         except OverflowError:  # pragma: no cover - float() returns inf, it does not raise
